@@ -152,7 +152,7 @@ for _d in (26, 29):
             for south in (0, 1):
                 _c10.append(H('c10_ringends_%s_d%d_k%d' % ('s' if south else 'n', _d, k0),
                               'k_c10_ringends(%d, %d, %d, %d, %s);' % (_d, k0, _C10_W, _C10_T, 'true' if south else 'false'),
-                              tiers=Q if (_d == 29 and k0 == (1 << 29) - _C10_W) else T, timeout=1200, mem_gb=6, unwind=max(4, _d + 1),
+                              tiers=T, timeout=3600, mem_gb=6, unwind=max(4, _d + 1),
                               inputs=[('r', 'u64')], replay='c10_ring', replay_const={'depth': _d},
                               covers=['last cell of the last ring of the window', 'first cell of the first ring of the window'],
                               domain='depth %d, %s polar cap: first and last %d cells of each of the rings %d..%d from the pole'
@@ -164,8 +164,8 @@ PROPS['C10'] = dict(
                'ring::polar_cap_ring_index', 'ring::center_of_projected_cell', 'Layer::center_of_projected_cell'],
     bounds={'quick': 'polar caps: every index, depths 0..2; equatorial region: every index, depths 0,1,2,29 (the successor of the last equatorial '
                      'index is the first south-polar index, i.e. the mirror image of the last cell of the last polar ring)',
-            'thorough': 'polar caps: every index, depths 0..8; equatorial region: every index, all 30 depths'},
-    outside='polar-cap indices at depths above the listed ones, except the ring-index lemma (see c10_isqrt_* harnesses)',
+            'thorough': 'polar caps: every index, depths 0..8, and at depths 26 and 29 the first / last 4 cells of each ring in windows of 64 rings; equatorial region: every index, all 30 depths'},
+    outside='interior cells of polar rings at depths above 8 (quick: above 2); the full-width ring-index lemma did not finish (DESIGN.md 10.2)',
     assumptions=['f64::sqrt is the IEEE correctly rounded square root (CBMC model, exact)'],
 )
 
@@ -254,10 +254,10 @@ def _bmoc_family(pid, mode):
     L = []
     shapes = [
         # and
-        (1, 1, 1, 2, 2, Q), (1, 2, 1, 2, 2, Q), (1, 1, 2, 1, 2, Q), (1, 2, 2, 2, 2, Q),
+        (1, 1, 1, 2, 2, Q), (1, 2, 1, 2, 2, Q), (1, 1, 2, 1, 2, Q), (1, 2, 2, 2, 2, Q), (1, 1, 1, 3, 0, Q), (1, 1, 1, 0, 3, Q),
         (1, 1, 3, 2, 2, T), (1, 3, 1, 2, 2, T), (1, 2, 2, 2, 1, T), (1, 0, 1, 1, 1, T), (1, 1, 0, 1, 1, T),
         # not
-        (0, 1, 0, 1, 1, Q), (0, 0, 0, 1, 1, Q), (0, 1, 0, 2, 2, T), (0, 2, 0, 1, 1, T), (0, 2, 0, 2, 2, T), (0, 1, 0, 0, 0, T),
+        (0, 1, 0, 1, 1, Q), (0, 0, 0, 1, 1, Q), (0, 1, 0, 2, 2, T), (0, 2, 0, 1, 1, Q), (0, 2, 0, 2, 2, T), (0, 1, 0, 0, 0, T),
         # or
         (2, 1, 1, 1, 1, Q), (2, 1, 1, 2, 2, Q), (2, 1, 1, 1, 2, Q), (2, 1, 0, 1, 1, T), (2, 0, 1, 1, 1, T), (2, 1, 1, 2, 1, T),
         (2, 1, 2, 1, 1, T, 3600, 40), (2, 2, 1, 1, 1, T, 3600, 40),
@@ -270,6 +270,9 @@ def _bmoc_family(pid, mode):
         to = sh[6] if len(sh) > 6 else (1200 if tiers is Q else 2400)
         mem = sh[7] if len(sh) > 7 else 8
         L.append(_bmoc_h(pid, mode, op, na, nb, dma, dmb, tiers, timeout=to, mem_gb=mem))
+    # or / xor end with pack(): the pack lemma (cut) is part of the claim
+    L.append(_pack_h(pid, 4, 1, Q, timeout=1800))
+    L.append(_pack_h(pid, 4, 2, T, timeout=3600, mem_gb=16))
     return L
 
 
@@ -317,7 +320,7 @@ _BMOC_ASSUME = ['allocator-growth model: BMOCBuilderUnsafe::{new,push,push_raw_u
                 'on arbitrary valid sequences by the pack harnesses (C15)',
                 'operands are placed directly in a boxed slice in the documented raw layout (solver side); natively they are built through the public builder']
 _BMOC_BOUNDS = {
-    'quick': 'depth_max <= 2; operand shapes (entries of a, entries of b): and (1,1),(2,1),(1,2),(2,2); not (0),(1); or / xor (1,1) incl. operands of '
+    'quick': 'depth_max <= 2 (and (1,1) also with depth_max 3 vs 0); operand shapes (entries of a, entries of b): and (1,1),(2,1),(1,2),(2,2); not (0),(1),(2); or / xor (1,1) incl. operands of '
              'different depth_max; every depth/hash/flag of every entry symbolic; one symbolic probe cell (= all cells of the universe)',
     'thorough': 'adds and (1,3),(3,1),(0,1),(1,0); not (2) and depth_max 0 / 2; or / xor (1,2),(2,1),(1,0),(0,1)',
 }
@@ -368,7 +371,7 @@ def _views_h(view, n, dm, tiers, timeout=1500, mem_gb=8):
              domain='view %s of every valid BMOC of exactly %d entries, depth_max %d, symbolic probe cell / index' % (_VN[view], n, dm))
 
 
-_c09 = [_views_h(v, 2, 1, Q) for v in range(5)] + [_views_h(v, 0, 1, Q, timeout=600) for v in (1, 4)] \
+_c09 = [_views_h(v, 2, 1, Q if v != 3 else T, mem_gb=(8 if v != 3 else 24)) for v in range(5)] + [_views_h(v, 0, 1, Q, timeout=600) for v in (1, 3, 4)] \
     + [_views_h(v, 1, 2, T, timeout=3000, mem_gb=12) for v in range(5)] + [_views_h(v, 3, 1, T, timeout=3000, mem_gb=12) for v in range(5)] + [
     _layout_h('C09', 2, 2, Q), _layout_h('C09', 3, 2, T),
     # operator outputs are well formed: the C08 harnesses assert spec_wf on every output; two of them are re-run here
@@ -392,15 +395,16 @@ _c15 = [
     _lower_h('C15', 2, 2, 1, False, Q), _lower_h('C15', 2, 1, 0, True, Q),
     _lower_h('C15', 2, 2, 0, False, T), _lower_h('C15', 3, 2, 1, False, T), _lower_h('C15', 2, 2, 1, True, T),
 ]
-for (dep, cap, m, tiers) in ((1, 4, 3, Q), (1, 1, 2, Q), (1, 2, 2, Q), (1, 4, 0, Q), (2, 4, 4, T), (1, 1, 3, T), (2, 2, 3, T), (0, 3, 3, T)):
+for (dep, cap, m, tiers) in ((1, 3, 2, Q), (1, 1, 2, Q), (1, 4, 0, Q), (1, 4, 3, Q), (0, 4, 4, Q), (1, 4, 1, T), (1, 2, 2, T), (2, 4, 4, T), (1, 1, 3, T), (0, 3, 3, T)):
     B = 'nested::bmoc::'
     us = dict(_bmoc_unwindset(1, 1, dep, 2))
     us.update({B + 'BMOCBuilderFixedDepth::buff_to_bmoc#0': m + 1, B + 'BMOCBuilderFixedDepth::largest_lower_cell_sequence_len#0': m + 1,
                B + 'BMOC::create_unsafe_copying#0': m + 1, B + 'verif_c15::p_fixed_builder#0': 6, B + 'verif_c15::p_fixed_builder#1': 6,
-               B + 'verif_c15::p_fixed_builder#2': 6, 'verif_common::spec_scan#0': m + 8})
+               B + 'verif_c15::p_fixed_builder#2': 6, 'verif_common::spec_scan#0': m + 8,
+               B + 'verif_c15::model_sort#0': 5, B + 'verif_c15::model_sort#1': 5})
     _c15.append(H('c15_fixed_d%d_cap%d_m%d' % (dep, cap, m), 'k_fixed_builder(%d, %d, %d);' % (dep, cap, m), tiers=tiers,
                   timeout=1800 if tiers is Q else 3600, mem_gb=10, unwind=m + 2, unwindset=us,
-                  stubs=_bmoc_stubs('verif_c15') + _bmoc_cut_pack('verif_c15'),
+                  stubs=_bmoc_stubs('verif_c15') + _bmoc_cut_pack('verif_c15') + [('<[u64]>::sort_unstable', 'crate::nested::bmoc::verif_c15::model_sort')],
                   inputs=[('is_full', 'bool'), ('p0', 'u64'), ('p1', 'u64'), ('p2', 'u64'), ('p3', 'u64'), ('c', 'u64')],
                   replay='fixed_builder', replay_const={'depth': dep, 'cap': cap, 'm': m},
                   covers=(['unsorted pushes', 'duplicate push'] if m >= 2 else []),
@@ -412,9 +416,10 @@ PROPS['C15'] = dict(
                'BMOCBuilderUnsafe::{pack,to_lower_depth,to_bmoc_packing,to_lower_depth_bmoc,to_lower_depth_bmoc_packing,low_depth_raw_val_at_lower_depth}',
                'slice::sort_unstable', 'Vec::dedup'],
     bounds={'quick': 'pack: every valid sequence of 4 entries at depth_max 1 and of 2 entries at depth_max 2; lower depth: 2 entries, 2->1 and 1->0 (packing); '
-                     'fixed-depth builder: depth 1, (capacity, pushes) in {(4,3),(1,2),(2,2),(4,0)}',
+                     'fixed-depth builder: depth 1, (capacity, pushes) in {(3,2),(1,2),(4,1),(4,0)}',
             'thorough': 'pack: 3 and 4 entries at depth_max 2; lower depth: 3 entries, 2->0; fixed-depth builder: up to 4 pushes, capacities 1..4, depths 0..2'},
-    outside='push sequences longer than 4, sequences longer than 4 entries; in the fixed-depth builder harnesses the packing step of `or` is cut (pack is decided by the pack harnesses)',
+    outside='push sequences longer than 4, sequences longer than 4 entries; in the fixed-depth builder harnesses the packing step of `or` is cut (pack is decided by the pack harnesses) '
+            'and std slice::sort_unstable is replaced by an insertion-sort model (<= 4 elements, asserted)',
     assumptions=_BMOC_ASSUME,
 )
 
@@ -423,24 +428,31 @@ _c14 = []
 def _c14_add(d, dl, tiers):
     m = (1 << dl) - 1
     dom = 'depth %d, delta_depth %d: every cell' % (d, dl)
-    common = dict(tiers=tiers, timeout=1500, mem_gb=8)
-    _c14.append(H('c14_internal_d%d_dd%d' % (d, dl), 'k_c14_internal(%d, %d);' % (d, dl), unwind=max(9, d + dl + 1, m + 2),
+    common = dict(tiers=tiers, timeout=2400, mem_gb=12)
+    _c14.append(H('c14_internal_d%d_dd%d' % (d, dl), 'k_c14_internal(%d, %d);' % (d, dl), unwind=max(9, d + dl + 1, 4 * m + 2),
                   inputs=[('hash', 'u64'), ('k', 'u32'), ('k2', 'u32')], replay='c14_internal', replay_const={'depth': d, 'delta': dl},
                   covers=['last cell of the walk'], domain=dom + ', every position of the walk / of the sorted list', **common))
     _c14.append(H('c14_parts_d%d_dd%d' % (d, dl), 'k_c14_parts(%d, %d);' % (d, dl), unwind=max(9, d + dl + 1, m + 2),
                   inputs=[('hash', 'u64'), ('k', 'u32')], replay='c14_parts', replay_const={'depth': d, 'delta': dl},
                   covers=['last cell of a side'], domain=dom + ', every position of each side', **common))
-    _c14.append(H('c14_external_d%d_dd%d' % (d, dl), 'k_c14_external(%d, %d);' % (d, dl), unwind=max(10, d + dl + 1, 4 * (m + 1) + 6),
-                  inputs=[('hash', 'u64'), ('c', 'u64'), ('k', 'u32')], replay='c14_external', replay_const={'depth': d, 'delta': dl},
-                  covers=['adjacent outside cell in another base cell'], domain=dom + ' x every cell of depth %d' % (d + dl), **common))
+    for srt in (0, 1):
+        _c14.append(H('c14_external%s_d%d_dd%d' % ('_sorted' if srt else '', d, dl), 'k_c14_external(%d, %d, %s);' % (d, dl, 'true' if srt else 'false'),
+                      unwind=max(10, d + dl + 1, 4 * (m + 1) + 6),
+                      inputs=[('hash', 'u64'), ('c', 'u64'), ('k', 'u32')], replay='c14_external', replay_const={'depth': d, 'delta': dl, 'sorted': srt},
+                      covers=['adjacent outside cell in another base cell'], domain=dom + ' x every cell of depth %d' % (d + dl),
+                      **dict(common, tiers=(tiers if not srt else T))))
     _c14.append(H('c14_struct_d%d_dd%d' % (d, dl), 'k_c14_struct(%d, %d);' % (d, dl), unwind=max(10, d + dl + 1, 4 * (m + 1) + 6),
                   inputs=[('hash', 'u64'), ('c', 'u64')], replay='c14_struct', replay_const={'depth': d, 'delta': dl},
                   covers=['a north corner cell exists'], domain=dom + ' x every cell of depth %d' % (d + dl), **common))
 for _d in (0, 1, 2):
     for _dl in (1, 2):
         _c14_add(_d, _dl, Q if (_d, _dl) in ((0, 1), (1, 1), (1, 2)) else T)
+# depth + delta_depth = 29 (the statement includes it)
+_c14.append(H('c14_internal_d28_dd1', 'k_c14_internal(28, 1);', tiers=Q, timeout=1200, mem_gb=8, unwind=30,
+              inputs=[('hash', 'u64'), ('k', 'u32'), ('k2', 'u32')], replay='c14_internal', replay_const={'depth': 28, 'delta': 1},
+              covers=['last cell of the walk'], domain='depth 28, delta_depth 1 (depth + delta = 29): every cell'))
 for w in (0, 1, 2):
-    _c14.append(H('c14_guard_%d' % w, 'k_c14_guard(1, 1, %d);' % w, tiers=Q, timeout=300, should_panic=True, unwind=10,
+    _c14.append(H('c14_guard_%d' % w, 'k_c14_guard(1, 1, %d);' % w, tiers=Q, timeout=1800, mem_gb=12, should_panic=True, unwind=10,
                   inputs=[('hash', 'u64')], replay='c14_guard', replay_const={'depth': 1, 'delta': 1, 'which': w},
                   never=['guard bypassed'], domain='depth 1, every cell number >= 48'))
 PROPS['C14'] = dict(
@@ -467,12 +479,27 @@ for _d in range(30):
                   unwind=3, stubs=_LIBM, inputs=[('lon', 'f64'), ('lat', 'f64')], replay='c01_all_depths',
                   covers=['north cap, second turn', 'south cap, negative longitude', 'transition latitude', 'north pole'],
                   domain='depth %d: every double lon in [-25.2, 25.2], every double lat in [-pi/2, pi/2], through the public nested::hash' % _d))
-_c01.append(H('c01_r', 'k_c01_r();', tiers=Q, timeout=2400, mem_gb=8, unwind=3, stubs=_LIBM, inputs=[('lon', 'f64'), ('lat', 'f64')],
-              replay='c01_all_depths', covers=['north cap, second turn', 'south cap, negative longitude', 'equatorial base cell'],
-              domain='real Layer::d0h_lh_in_d0c: every double lon in [-25.2, 25.2] x lat in [-pi/2, pi/2]: guarantee R'))
-_c01.append(H('c01_p', 'k_c01_p();', tiers=Q, timeout=2400, mem_gb=8, unwind=3, stubs=_LIBM, inputs=[('lon', 'f64'), ('lat', 'f64')],
-              replay='c01_all_depths', covers=['equatorial point in a south polar base cell', 'west half of base cell 4', 'south cap, negative longitude'],
-              domain='real Layer::d0h_lh_in_d0c: same domain: placement P against the reference projection within 2^-46 (polar caps: cosines with <= 10 significant bits)'))
+def _r_harnesses(prefix):
+    L = []
+    for reg, rn in ((0, 'npc'), (1, 'eqr'), (2, 'spc')):
+        for neg in (0, 1):
+            L.append(H('%s_r_%s_%s' % (prefix, rn, 'neg' if neg else 'pos'), 'k_c01_r(%d, %s);' % (reg, 'true' if neg else 'false'), tiers=Q, timeout=2400,
+                       mem_gb=6, unwind=3, stubs=_LIBM, inputs=[('lon', 'f64'), ('lat', 'f64')], replay='c01_all_depths', covers=['second turn', 'zero longitude'],
+                       domain='lemma R on the real Layer::d0h_lh_in_d0c: every double lon %s in [-25.2, 25.2], every lat of the %s region'
+                              % ('< 0 (sign bit set)' if neg else '>= 0', {'npc': 'north polar cap', 'eqr': 'equatorial', 'spc': 'south polar cap'}[rn])))
+    return L
+
+
+_c01 += _r_harnesses('c01')
+for reg, rn in ((0, 'npc'), (1, 'eqr'), (2, 'spc')):
+    for neg in (0, 1):
+        for bits in ((0,) if reg == 1 else (0, 6)):
+            _c01.append(H('c01_p_%s_%s%s' % (rn, 'neg' if neg else 'pos', '_prod%d' % bits if bits else ''),
+                          'k_c01_p(%d, %s, %d);' % (reg, 'true' if neg else 'false', bits), tiers=(Q if bits == 0 else T), timeout=2400, mem_gb=6, unwind=3,
+                          stubs=_LIBM, inputs=[('lon', 'f64'), ('lat', 'f64')], replay='c01_all_depths',
+                          covers=['second turn'] + (['product clause reached'] if bits else []),
+                          domain='lemma P on the real Layer::d0h_lh_in_d0c: lon %s, %s region: base cell, h and side / range of l against the reference projection (2^-46)%s'
+                                 % ('< 0' if neg else '>= 0', rn, ('; exact l for cosines with <= %d significant bits' % bits) if bits else '')))
 for (lo, hi) in ((0, 0), (1, 8), (9, 16), (17, 29)):
     _c01.append(H('c01_s_d%d_%d' % (lo, hi), 'k_c01_s(%d, %d);' % (lo, hi), tiers=Q, timeout=1800, mem_gb=8, unwind=max(4, hi + 1),
                   stubs=[(a, b % 'c01') for a, b in _CUT], inputs=[('depth', 'u8'), ('d0h', 'u8'), ('l', 'f64'), ('h', 'f64')], replay='c01_pullback',
@@ -492,7 +519,7 @@ PROPS['C01'] = dict(
             'thorough': 'end-to-end totality/range at every depth 0..=29'},
     outside='|lon| > 25.2; positions exactly on a polar facet seam are excluded from the placement lemma P (they are covered by R, by the end-to-end runs and by the native oracle); '
             'containment is decided as P (placement within 2^-46 projection units, from the same libm values) composed with S (exact floor in the scaled frame)',
-    assumptions=_LIBM_ASSUME + ['assume-guarantee cut at Layer::d0h_lh_in_d0c: lemma R is proved on the real producer (c01_r) and assumed by the consumer harnesses (c01_s_*, c02_*)'],
+    assumptions=_LIBM_ASSUME + ['assume-guarantee cut at Layer::d0h_lh_in_d0c: lemma R is proved on the real producer (c01_r_*) and assumed by the consumer harnesses (c01_s_*, c02_*)'],
 )
 
 _c02 = []
@@ -501,16 +528,14 @@ for (lo, hi) in ((0, 0), (1, 7), (8, 8), (9, 15), (16, 16), (17, 28)):
                   stubs=[(a, b % 'c02') for a, b in _CUT], inputs=[('depth', 'u8'), ('d0h', 'u8'), ('l', 'f64'), ('h', 'f64')], replay='c01_pullback',
                   covers=['reached'],
                   domain='hash at depth d and d+1 on the same interface value: d symbolic in %d..=%d, every (base cell, l, h) satisfying R' % (lo, hi)))
-_c02.append(H('c02_r', 'k_c01_r();', tiers=Q, timeout=2400, mem_gb=8, unwind=3, stubs=_LIBM, inputs=[('lon', 'f64'), ('lat', 'f64')],
-              replay='c01_all_depths', covers=['north cap, second turn', 'south cap, negative longitude', 'equatorial base cell'],
-              domain='guarantee R of the cut, on the real Layer::d0h_lh_in_d0c (same harness as c01_r)'))
+_c02 += _r_harnesses('c02')
 PROPS['C02'] = dict(
     inject=[dict(host='src/nested/mod.rs', mod='verif_c02', parts=['props/c01.rs', 'kani/c01.rs'])],
     harnesses=_c02, libm=True,
     functions=['Layer::hash_v2 (scaling by exponent-bit addition, clamp)', 'Layer::new (time_half_nside)', 'Layer::build_hash_from_parts', 'Layer::d0h_lh_in_d0c (lemma R)'],
     bounds={'all': 'all 29 adjacent depth pairs (d, d+1), d symbolic; every finite (l, h) with h+-l < 2+2^-28, incl. -0.0-free / subnormal-free as proved by R; '
                    'non-adjacent pairs follow by transitivity of the 2-bit shift'},
-    outside='nothing beyond lemma R (decided on the real code by c02_r) and the depth independence of Layer::d0h_lh_in_d0c (by signature: it has no self)',
+    outside='nothing beyond lemma R (decided on the real code by c02_r_*) and the depth independence of Layer::d0h_lh_in_d0c (by signature: it has no self)',
     assumptions=_LIBM_ASSUME + ['assume-guarantee cut at Layer::d0h_lh_in_d0c'],
 )
 
@@ -547,9 +572,9 @@ PROPS['C17'] = dict(
 _c06 = []
 for (_d, _dl, tiers) in ((0, 0, Q), (3, 0, Q), (29, 0, Q), (0, 1, Q), (2, 2, Q), (27, 2, Q), (1, 0, T), (16, 0, T), (5, 3, T), (28, 1, T), (0, 29, T)):
     _c06.append(H('c06_allsky_d%d_dd%d' % (_d, _dl), 'k_c06_allsky(%d, %d);' % (_d, _dl), tiers=tiers, timeout=1200, mem_gb=8, unwind=14,
-                  stubs=_LIBM, inputs=[('lon', 'f64'), ('lat', 'f64'), ('r', 'f64')], replay='c06_allsky', replay_const={'depth': _d, 'delta': _dl},
-                  covers=['radius exactly pi', 'infinite radius, NaN centre'],
-                  domain='depth %d, delta_depth %d: every double radius >= pi (incl. +inf), every double centre (incl. NaN)' % (_d, _dl)))
+                  stubs=_LIBM, inputs=[('lon', 'f64'), ('lat', 'f64')], replay='c06_allsky', replay_const={'depth': _d, 'delta': _dl},
+                  covers=['NaN centre'],
+                  domain='depth %d, delta_depth %d: radius in {pi, next double after pi, 4, 1e300, +inf}, every double centre (incl. NaN)' % (_d, _dl)))
 for (ds, lv, tiers) in ((0, 1, Q), (1, 1, Q), (0, 2, T), (3, 2, T)):
     B = 'crate::nested::bmoc::'
     _c06.append(H('c06_recur_d%d_l%d' % (ds, lv), 'k_c06_recur(%d, %d);' % (ds, lv), tiers=tiers, timeout=2400, mem_gb=10, unwind=26,
@@ -560,13 +585,15 @@ for (ds, lv, tiers) in ((0, 1, Q), (1, 1, Q), (0, 2, T), (3, 2, T)):
                          'arbitrary distance per visited cell, symbolic probe cell' % (ds, lv)))
 _c06.append(_pack_h('C06', 4, 1, Q, timeout=1500))
 _c06[-1]['mod'] = 'verif_c06b'
+_c06[-1]['stubs'] = [(a, b.replace('verif_c06::', 'verif_c06b::')) for a, b in _c06[-1]['stubs']]
+_c06[-1]['unwindset'] = dict((k.replace('verif_c06::', 'verif_c06b::'), v) for k, v in _c06[-1]['unwindset'].items())
 PROPS['C06'] = dict(
     inject=[dict(host='src/nested/mod.rs', mod='verif_c06', parts=['props/c06.rs', 'kani/c06.rs']),
             dict(host='src/nested/bmoc.rs', mod='verif_c06b', parts=['props/c07.rs', 'kani/c07.rs'])],
     harnesses=_c06, libm=True,
     functions=['nested::cone_coverage_approx', 'nested::cone_coverage_approx_custom', 'Layer::cone_coverage_approx_internal', 'Layer::allsky_bmoc_builder',
                'Layer::cone_coverage_approx_recur', 'BMOCBuilderUnsafe::{push_all,pack,to_lower_depth,to_bmoc_packing,to_lower_depth_bmoc_packing}'],
-    bounds={'quick': 'whole sky: (depth, delta) in {(0,0),(3,0),(29,0),(0,1),(2,2),(27,2)}, every radius >= pi and every centre; recursion threshold logic: '
+    bounds={'quick': 'whole sky: (depth, delta) in {(0,0),(3,0),(29,0),(0,1),(2,2),(27,2)}, radius in {pi, nextafter(pi), 4, 1e300, +inf} and every centre; recursion threshold logic: '
                      'one root, 1 level below depth 0 and depth 1; pack: every valid sequence of 4 entries at depth_max 1',
             'thorough': 'adds (depth, delta) (1,0),(16,0),(5,3),(28,1),(0,29); recursion 2 levels'},
     outside='NOT decided (stated in DESIGN.md 5 C06): that `distance <= min` really means "entirely inside the cone" and the radius + 2*c2v tightness -- both need the '
@@ -581,10 +608,10 @@ _c11 = []
 for ns in (1, 2, 3, 4, 5, 6, 7, 8, 13, 100, 1000003, (1 << 29) - 1, 1 << 29):
     small = ns <= 13
     tq = Q if ns in (1, 2, 3, 5) else T
-    _c11.append(H('c11_point_n%d' % ns, 'k_c11_point(%d);' % ns, tiers=tq, timeout=2400, mem_gb=8, unwind=3, stubs=_PLANE_CUT('verif_c11'),
+    _c11.append(H('c11_point_n%d' % ns, 'k_c11_point(%d, 0);' % ns, tiers=tq, timeout=2400, mem_gb=8, unwind=3, stubs=_PLANE_CUT('verif_c11'),
                   inputs=[('x', 'f64'), ('y', 'f64')], replay='c11_pullback', replay_const={'nside': ns},
-                  covers=['polar cap, on the seam lon = pi/2', 'north pole', 'south cap next to lon = 2 pi'],
-                  domain='nside %d: every double point of the HEALPix image (x in [-8, 8], y in [-2, 2])' % ns))
+                  covers=['north polar cap', 'transition latitude', 'south cap, last base cell'],
+                  domain='nside %d: every double point of the HEALPix image (x in [-8, 8], y in [-2, 2]) farther than 2^-40 from the polar base-cell seams (open finding F4)' % ns))
     if small or ns == 100:
         _c11.append(H('c11_center_n%d' % ns, 'k_c11_center(%d);' % ns, tiers=tq, timeout=2400, mem_gb=8, unwind=3, stubs=_PLANE_CUT('verif_c11'),
                       inputs=[('h', 'u64')], replay='c11_center', replay_const={'nside': ns}, covers=['last cell'],
@@ -592,6 +619,9 @@ for ns in (1, 2, 3, 4, 5, 6, 7, 8, 13, 100, 1000003, (1 << 29) - 1, 1 << 29):
     _c11.append(H('c11_order_n%d' % ns, 'k_c11_order(%d);' % ns, tiers=(tq if small else T), timeout=2400, mem_gb=8, unwind=3,
                   inputs=[('r', 'u64')], replay='c11_order', replay_const={'nside': ns}, covers=['last pair'],
                   domain='nside %d: every pair of consecutive cell numbers' % ns))
+_c11.append(H('c11_seam_witness_n2', 'k_c11_point(2, 1);', tiers=Q, timeout=1200, mem_gb=8, unwind=3, stubs=_PLANE_CUT('verif_c11'),
+              inputs=[('x', 'f64'), ('y', 'f64')], replay='c11_pullback', replay_const={'nside': 2}, covers=[],
+              domain='witness of the open finding F4 (expected to fail): nside 2, image points on / within 2^-40 of a polar base-cell seam'))
 for w in (0, 1, 2, 3):
     _c11.append(H('c11_guard_%d' % w, 'k_c11_guard(3, %d);' % w, tiers=Q, timeout=600, mem_gb=6, should_panic=True, unwind=3, stubs=_LIBM,
                   inputs=[('h', 'u64'), ('lon', 'f64'), ('lat', 'f64')], replay='c11_guard', replay_const={'nside': 3, 'which': w},
